@@ -188,6 +188,18 @@ def run(vc):
                 note="PG' = PG + (B Va - Pbus)[bus] * baseMVA / #(reference generators at the bus)", meta=dict(part="dc-slack"))
     vc.explore("_run_dc_pf", h_dc, max_paths=20)
     run_single_slack(vc)
+    _standins(vc)
+
+
+def _standins(vc):
+    if not hasattr(vc, "native_standins"):
+        vc.native_standins = []
+    vc.native_standins.append(dict(
+        name="energy balance of converged power flows on fixed networks",
+        bound="example_multivoltage, case9 and small networks: DC balance, branch losses, single-slack result routine; algorithms nr / "
+              "iwamoto_nr / gs / fdbx / fdxb with a constant-current / constant-impedance load; bfsw with an ideal phase shifter inside a mesh",
+        script="from replaylib import run_all\nfrom replaylib.balance import main_dc, main_losses, main_single_slack, main_algorithms\n"
+               "run_all(main_dc, main_losses, main_single_slack, main_algorithms)\n", timeout=900))
 
 
 def classify(ob, model):
